@@ -33,10 +33,15 @@ def digest_fit(spec, fam, bdf, rdf, reuse=None):
         # the model object was used for another meter before (fit + predict)
         fam.fit(m, fam.baseline_data(reuse[0].copy(deep=True)))
         fam.predict(m, fam.reporting_data(reuse[1].copy(deep=True)))
-    m = fam.fit(m, data)
-    js = m.to_json()
-    p = fam.predict(m, fam.reporting_data(rdf.copy(deep=True)))
-    pb = fam.predict(m, data) if fam.kind != "caltrack" else p
+    try:
+        m = fam.fit(m, data)
+        js = m.to_json()
+        p = fam.predict(m, fam.reporting_data(rdf.copy(deep=True)))
+        pb = fam.predict(m, data) if fam.kind != "caltrack" else p
+    except Exception as e:
+        # an outcome like any other: the same fit must raise the same thing in every context
+        tag = "RAISED:%s" % type(e).__name__
+        return dict(input=inp, json=tag, pred=tag, pred_baseline=tag, json_len=0, raised="%s: %s" % (type(e).__name__, str(e)[:200]))
     return dict(input=inp, json=hashlib.sha1(js.encode()).hexdigest(), pred=I.digest(p), pred_baseline=I.digest(pb), json_len=len(js))
 
 
@@ -50,11 +55,19 @@ def main():
         from vf import fits as FT
         others = ["daily:current", "hourly:default", "billing", "daily:legacy"]
         rng.shuffle(others)
-        for o in others[: ctx["warm"]]:
+        others = others[: ctx["warm"]]
+        if ctx.get("other_configurations"):
+            # the same family used with OTHER configurations first (supplemental columns, other bins/scaler, custom maps, developer profiles)
+            others = {"hourly": ["hourly:supp", "hourly:bins8:ghi", "hourly:robust"], "daily": ["daily:custom-maps", "daily:legacy-dev-splits", "daily:dev-alpha-all"],
+                      "billing": ["daily:custom-maps", "billing", "daily:legacy-dev-splits"], "caltrack": ["hourly:supp", "caltrack"]}[fam.kind]
+        for o in others:
             f2 = FT.Family(o)
-            b2 = f2.baseline_frame(rng, tz="UTC", days=365 if f2.kind != "hourly" else 120)
-            m2 = f2.fit(f2.new_model(seed=int(rng.integers(0, 1000))), f2.baseline_data(b2))
-            f2.predict(m2, f2.reporting_data(f2.reporting_frame(rng, "UTC", "2019-01-01", 30)))
+            b2 = f2.baseline_frame(rng, tz="UTC", days=365 if f2.kind != "hourly" else 135)
+            try:
+                m2 = f2.fit(f2.new_model(seed=int(rng.integers(0, 1000))), f2.baseline_data(b2))
+                f2.predict(m2, f2.reporting_data(f2.reporting_frame(rng, "UTC", "2019-01-01", 30)))
+            except Exception:
+                pass            # the unrelated meter's own failure is not judged here; the target fit below is
     if ctx.get("perturb_rng"):
         import random
         np.random.seed(int(rng.integers(0, 2 ** 31)))
